@@ -20,6 +20,7 @@ pub fn run(op: &str, v: &Value) -> Value {
             let mut t = Trie::from_keys(&keys);
             let labels = serde_json::to_value(&t).unwrap()["labels"]["labels"].clone();
             let mut steps = Vec::new();
+            let mut olds: Vec<(Trie, usize)> = Vec::new();
             let dump_each = v["dump_each"].as_bool().unwrap_or(true);
             for o in v["ops"].as_array().unwrap() {
                 if let Some(k) = o["ins"].as_str() {
@@ -45,20 +46,26 @@ pub fn run(op: &str, v: &Value) -> Value {
                 } else if o["clone"].as_bool().unwrap_or(false) {
                     let c = t.clone();
                     let same = c == t;
-                    t = c;
+                    // the original stays alive next to its copy: later insertions into the copy must not show in it, nor its lookups in the copy
+                    olds.push((std::mem::replace(&mut t, c), steps.len()));
                     steps.push(json!({"clone": true, "same": same}));
                 } else if o["serde"].as_bool().unwrap_or(false) {
                     let bytes = postcard::to_allocvec(&t).unwrap();
                     let c: Trie = postcard::from_bytes(&bytes).unwrap();
                     let same = c == t;
-                    t = c;
+                    olds.push((std::mem::replace(&mut t, c), steps.len()));
                     steps.push(json!({"serde": true, "same": same, "bytes": bytes.len()}));
                 }
             }
+            // the kept originals are probed FIRST (a lookup in one copy must not influence another), then the final trie
+            let old_probes: Vec<Value> = olds.iter().map(|(ot, at)| {
+                let found: Vec<Value> = v["probes"].as_array().map(|a| a.iter().map(|k| json!(ot.search(k.as_str().unwrap(), &|_, _| {}).is_some())).collect()).unwrap_or_default();
+                json!({"at_step": at, "found": found})
+            }).collect();
             let probes: Vec<Value> = v["probes"].as_array().map(|a| a.iter().map(|k| {
                 json!(t.search(k.as_str().unwrap(), &|_, _| {}))
             }).collect()).unwrap_or_default();
-            json!({"steps": steps, "probes": probes, "final": dump(&t), "labels": labels})
+            json!({"steps": steps, "probes": probes, "old_probes": old_probes, "final": dump(&t), "labels": labels})
         }
         _ => json!({"error": "unknown trie op"}),
     }
